@@ -22,6 +22,24 @@ KINDS = ['None', 'NA', 'MARKER', 'REMOVE', 'bool', 'int', 'float', 'str', 'Uri',
 V3_ONLY = {'NA', 'list', 'dict', 'Grid', 'XStr'}
 NF_ALL = frozenset({'inf', '-inf', 'nan'})
 
+
+class DataAsFormat(Unsupported):
+    """`<text that contains a value's own characters> % args`: the value is interpreted as a printf template"""
+
+    def __init__(self, expr, fields, lineno):
+        Unsupported.__init__(self, 'value text used as a format template: %s' % expr)
+        self.expr, self.fields, self.lineno = expr, fields, lineno
+
+
+def report_data_as_format(ctx, rule, e, file, construct):
+    ctx.violation(rule, construct, e.expr,
+                  "a value whose text contains a percent sign (display name 'Valve position %%', '100%% outside air', "
+                  "'load %%s of %%d'): the text of %s is part of the string that is then used as a %%-format template -- "
+                  "'%%%%' collapses to '%%', '%%s' consumes an argument, a lone '%%' raises ValueError/TypeError out of dump()"
+                  % ', '.join(e.fields),
+                  'data (%s) is concatenated into the format string before `%%` is applied' % ', '.join(e.fields),
+                  file=file, line=e.lineno, engine='E5')
+
 # python class facts for isinstance ladders (kind -> classes it is an instance of)
 ISA = {
     'None': set(), 'NA': {'NAType', 'Singleton'}, 'MARKER': {'MarkerType', 'Singleton'},
@@ -111,7 +129,9 @@ class Interp(object):
                 return ('const', kind == 'Ref+dis')
         if kind in ('Quantity', 'Quantity-nounit'):
             if name == 'value':
-                return ('num', 'number', frozenset())
+                # a unit-less quantity is a plain number for the formats, the non-finite ones included; INF/NaN with a
+                # unit has no spelling in either format and is outside the properties' domain
+                return ('num', 'number', NF_ALL if kind == 'Quantity-nounit' else frozenset())
             if name == 'unit':
                 if kind == 'Quantity-nounit':
                     return ('const', None)
@@ -239,6 +259,8 @@ class Interp(object):
                     raise Unsupported('format %s' % norm(e.left))
                 fs = self.model.fold(self.modname, e.left)
                 if not isinstance(fs, str):
+                    if getattr(fmt[1], 'raw', None):
+                        raise DataAsFormat(norm(e), sorted(fmt[1].raw), getattr(e, 'lineno', None))
                     raise Unsupported('non-constant format %s' % norm(e.left))
                 args = e.right.elts if isinstance(e.right, ast.Tuple) else [e.right]
                 return ('str', self.format(fs, [self.expr(a, env) for a in args], e))
@@ -729,6 +751,18 @@ class Interp(object):
                 e2[var] = ('num', cur[1], cur[2] - which)
                 out.extend(self.block(st.orelse, e2, returns))
                 return out
+            # isinstance(<number>, float): the two branches see a float / an int (only floats can be non-finite)
+            tt = st.test
+            if isinstance(tt, ast.Call) and norm(tt.func) == 'isinstance' and len(tt.args) == 2 and isinstance(tt.args[0], ast.Name) \
+                    and tt.args[0].id in env and env[tt.args[0].id][0] == 'num' and env[tt.args[0].id][1] == 'number' \
+                    and norm(tt.args[1]) in ('float', 'six.integer_types', 'int'):
+                var = tt.args[0].id
+                cur = env[var]
+                is_float_test = norm(tt.args[1]) == 'float'
+                e1, e2 = dict(env), dict(env)
+                e1[var] = ('num', 'float', cur[2]) if is_float_test else ('num', 'int', frozenset())
+                e2[var] = ('num', 'int', frozenset()) if is_float_test else ('num', 'float', cur[2])
+                return self.block(st.body, e1, returns) + self.block(st.orelse, e2, returns)
             t = self.truth(st.test, env)
             if t is None and self.is_version_gate(st):
                 t = self.version_gate_truth(st)
